@@ -6,6 +6,8 @@ delta in {-2h, -1s, 0, +1s, +2h}: every weak ordering of the four instants.  x t
 date} x local time zone {unset, by name, by object} x provider x build path {property setters, add() of typed values,
 parsed text} x {1, 2} alarms.  One case = one row over all 6 values of A (so monotonicity in A is checked on the
 observations themselves); monotonicity in C follows from agreement with the (monotone) model in every cell.
+E-hist step per cell: the first alarm's ACKNOWLEDGED is then changed in place to the next value of the menu (or removed) and
+both the AlarmTime held from before and a freshly computed one must answer for the new value.
 """
 import itertools
 from datetime import date, datetime, timedelta, timezone
@@ -78,6 +80,15 @@ def build(case, a_delta):
     if path == "parsed":
         comp = Event.from_ical(comp.to_ical())
     return comp, cval, sval, specs
+
+
+def fresh_first(comp, local):
+    alarms = Alarms(comp)
+    if local == "name":
+        alarms.set_local_timezone(LOCAL_ZONE)
+    elif local == "object":
+        alarms.set_local_timezone(tzp.timezone(LOCAL_ZONE))
+    return alarms.times[0]
 
 
 def fail(cls, case, expected, observed, a_i):
@@ -166,6 +177,38 @@ def run_case(case, only_a=None):
                 fails.append(fail("active-raises-LocalTimezoneMissing-with-zone", case, "a list", "LocalTimezoneMissing", a_i))
         except Exception as e:  # noqa: BLE001
             fails.append(fail("active-raises", case, "a list or LocalTimezoneMissing", f"{type(e).__name__}: {e}", a_i))
+        # history: the alarm is (un)acknowledged in place after its time was computed - the AlarmTime held from before
+        # and a fresh computation must both answer for the alarm's CURRENT ACKNOWLEDGED
+        held_cell = None
+        if times:
+            new_ack = inst(kind, DELTAS[(a_i + 1) % len(DELTAS)])
+            al0 = alarm_objs[0]
+            try:
+                if new_ack is None:
+                    al0.pop("ACKNOWLEDGED", None)
+                else:
+                    al0.ACKNOWLEDGED = new_ack
+                model2 = M.is_active(specs[0]["T"], new_ack, cval, sval)
+                missing_tz = needs_local and local == "unset"
+                acks2 = [x for x in (new_ack, cval) if x is not None]
+                must_raise2 = missing_tz and acks2 and not (sval is not None and sval > max(acks2))
+                answers = []
+                for label, getter in (("held", lambda: times[0]), ("fresh", lambda: fresh_first(comp, local))):
+                    try:
+                        got2 = getter().is_active()
+                    except LocalTimezoneMissing:
+                        got2 = "LocalTimezoneMissing"
+                    except Exception as e:  # noqa: BLE001
+                        got2 = f"{type(e).__name__}: {e}"
+                    ok2 = (got2 == "LocalTimezoneMissing" or (not must_raise2 and got2 is model2)) if missing_tz else got2 is model2
+                    if not ok2:
+                        fails.append(fail(f"is_active-after-ACKNOWLEDGED-changed-in-place:{label}", case,
+                                          ("LocalTimezoneMissing" if must_raise2 else model2), got2, a_i))
+                    answers.append(got2)
+                held_cell = tuple(answers)
+            except Exception as e:  # noqa: BLE001
+                fails.append(fail("changing-ACKNOWLEDGED-raises", case, "accepted", f"{type(e).__name__}: {e}", a_i))
+            cell.append(held_cell)
         row.append(tuple(cell))
     # monotonicity in A on the observations: once inactive, later acknowledgements keep it inactive
     if only_a is None:
@@ -194,7 +237,9 @@ def run(ctx):
     ctx.bounds = {"deltas": [str(d) for d in DELTAS], "kinds": KINDS, "local": LOCAL, "paths": PATHS}
     ctx.assumptions += ["floating and date triggers are interpreted in the local zone given to Alarms.set_local_timezone "
                         "(date = local midnight); without it LocalTimezoneMissing is required only where the answer depends on the trigger",
-                        "the second alarm's trigger is one hour (date: one day) earlier with its own ACKNOWLEDGED"]
+                        "the second alarm's trigger is one hour (date: one day) earlier with its own ACKNOWLEDGED",
+                        "is_active() answers for the alarm's ACKNOWLEDGED at the time of the call (the property is read live), also on an "
+                        "AlarmTime computed before the acknowledgement was changed in place"]
 
     def gen():
         for provider in env.PROVIDERS:
